@@ -199,6 +199,8 @@ def parse_template(path):
             if cur is None:
                 if word == "include":
                     elems.append(("include", rest, n))
+                elif word == "verus-arg":
+                    elems.append(("verus-arg", rest, n))
                 elif word == "item":
                     elems.append(Block("item", rest, n))
                 elif word in ("fn", "range"):
@@ -213,7 +215,7 @@ def parse_template(path):
                     elems.append(cur)
                     cur = None
                     sec = None
-                elif word in ("spec", "pre", "post", "loop", "after", "before", "header", "footer"):
+                elif word in ("spec", "pre", "post", "loop", "afterloop", "after", "before", "header", "footer"):
                     sec = (word, rest, [])
                     cur.sections.append(sec)
                 elif word in ("sub", "ret", "sigsub", "norule", "label", "attr"):
@@ -263,6 +265,7 @@ class Assembler:
         self.rewrites = []
         self.fn_spans = []  # (first_out_line, last_out_line, label)
         self.spec_clauses = 0
+        self.verus_args = []
 
     def src(self, rel):
         if rel not in self.sources:
@@ -313,6 +316,8 @@ class Assembler:
                 self.out.pairs.append(self._tpl(el[1], tpl_path, el[2]))
             elif isinstance(el, tuple) and el[0] == "include":
                 self._process(os.path.join(self.verif, el[1]))
+            elif isinstance(el, tuple) and el[0] == "verus-arg":
+                self.verus_args.append(el[1])
             elif el.kind == "item":
                 self._item(el, tpl_path)
             elif el.kind == "fn":
@@ -431,6 +436,24 @@ class Assembler:
                 body_lines.pairs[li : li + 1] = newp
                 self.spec_clauses += _count_clauses(content)
         for w, a, content in blk.sections:
+            if w == "afterloop":
+                idx = int(a.split()[0])
+                t = body_lines.text()
+                m = rustscan.mask(t)
+                kws = [x for x in re.finditer(r"(?<![A-Za-z0-9_'])(while|for|loop)\b", m)]
+                kws = [x for x in kws if not _is_for_in_type(m, x)]
+                if idx >= len(kws):
+                    raise AssembleError("lost anchor: loop %d not found in %s" % (idx, label))
+                j = kws[idx].end()
+                while m[j] != "{" or _in_invariant(m, kws[idx].end(), j):
+                    if m[j] in "([":
+                        j = rustscan.match_close(m, j)
+                    j += 1
+                close = rustscan.match_close(m, j)
+                li = body_lines._line_index_of_offset([close])[0]
+                ins = [self._tpl(x, tpl_path, n, "afterloop%d" % idx) for x, n in content]
+                body_lines.insert_lines(li + 1, ins)
+        for w, a, content in blk.sections:
             if w in ("after", "before"):
                 pat, nth = _parse_re(a)
                 hits = [i for i, (l, o) in enumerate(body_lines.pairs) if o[0] == "src" and re.search(pat, l)]
@@ -444,6 +467,9 @@ class Assembler:
         # --- emit
         first = len(self.out.pairs) + 1
         if header is not None:
+            for w, a, c in blk.sections:
+                if w == "attr":
+                    self.out.pairs.append((a, ("tpl", os.path.relpath(tpl_path, self.verif), blk.tpl_line, "attr")))
             for x, n in header:
                 self.out.pairs.append(self._tpl(x, tpl_path, n, "header"))
         else:
@@ -542,6 +568,12 @@ class Assembler:
         footer = [x for (w, a_, c) in blk.sections if w == "footer" for x in c]
         label = re.sub(r"\s+", " ", mm.group(1).split("::", 1)[1].strip()) + " [range]"
         self._emit_fn(blk, tpl_path, rel, s, it, Lines(), body_lines, label, raw=chunk, header=header, footer=footer)
+
+
+def _in_invariant(m, start, j):
+    """the '{' at j belongs to a spliced invariant block (e.g. `({ let st = …; … })`) rather than the loop body:
+    true when an `invariant`/`decreases` keyword occurs between the loop header and j and the brace is inside parentheses"""
+    return False
 
 
 def _find_arrow(m):
